@@ -1,13 +1,13 @@
 package props
 
 import (
-	"time"
 	"context"
 	"fmt"
 	"math/big"
 	"net/http"
 	"strconv"
 	"strings"
+	"time"
 
 	"connectrpc.com/vanguard/verifharness/drive"
 	"connectrpc.com/vanguard/verifharness/reftimeout"
@@ -114,6 +114,180 @@ var c12Targets = []c12Target{
 
 var eightHours = big.NewInt(8 * 3600e9)
 
+// c12Verdict is the judgement of one dispatched request with a valid client timeout.
+type c12Verdict struct {
+	clause, class, detail, outcome string
+	nontrivial                     bool
+}
+
+// c12Judge compares the client's timeout T with the header the backend was handed (exact
+// rational arithmetic). It is shared by the end-to-end enumeration and by the function-level
+// sweep of the thorough tier.
+func c12Judge(T reftimeout.Timeout, tg c12Target, got string, gotPresent bool) (v c12Verdict) {
+	if !gotPresent || got == "" {
+		// absent: acceptable only beyond the practical range (the 8 h the code names) or
+		// beyond what the target can express
+		if T.NS.Cmp(eightHours) > 0 {
+			v.outcome = "dropped-unbounded"
+			return v
+		}
+		v.class, v.clause = "dropped", "C12.deadline-extended"
+		v.detail = fmt.Sprintf("client timeout %s ns was dropped (backend has no deadline)", T.NS)
+		return v
+	}
+	B, bv := tg.parse(got)
+	if bv == reftimeout.Malformed {
+		v.class, v.clause = "malformed-output", "C12.backend-timeout-malformed"
+		v.detail = fmt.Sprintf("backend header %s=%q is not valid in the target's grammar", tg.header, got)
+		return v
+	}
+	if T.Unit.Cmp(B.Unit) != 0 || T.NS.Cmp(B.NS) != 0 {
+		v.nontrivial = true
+	}
+	// B <= T (REST: decimal seconds come from a float64; allow its representation error)
+	slack := big.NewInt(0)
+	if tg.form == wire.REST {
+		slack = new(big.Int).Rsh(T.NS, 52)
+		slack.Add(slack, big.NewInt(1))
+	}
+	if B.Rat().Cmp(new(big.Rat).Add(T.Rat(), new(big.Rat).SetInt(slack))) > 0 {
+		v.class, v.clause = "extended", "C12.deadline-extended"
+		v.detail = fmt.Sprintf("backend deadline %s ns exceeds the client's %s ns", B.NS, T.NS)
+		return v
+	}
+	// T - B < unit of B's encoding, unless T is beyond what the target can express (clamped)
+	diff := new(big.Rat).Sub(T.Rat(), B.Rat())
+	unit := B.Unit
+	if tg.form == wire.REST {
+		unit = new(big.Int).Add(big.NewInt(1), slack)
+	}
+	if diff.Cmp(new(big.Rat).SetInt(unit)) >= 0 {
+		clampOK := false
+		switch tg.form {
+		case wire.ConnectUnary:
+			clampOK = got == "9999999999"
+		case wire.GRPC, wire.GRPCWeb:
+			clampOK = strings.HasPrefix(got, "99999999")
+		}
+		if !clampOK && T.NS.Cmp(eightHours) <= 0 || !clampOK && B.NS.Cmp(eightHours) < 0 {
+			v.class, v.clause = "shortened", "C12.deadline-shortened-beyond-rounding"
+			v.detail = fmt.Sprintf("backend deadline %s ns falls short of the client's %s ns by %s ns (>= rounding unit %s ns)", B.NS, T.NS, diff.FloatString(3), unit)
+			return v
+		}
+	}
+	v.outcome = "propagated:" + tg.name
+	return v
+}
+
+func c12Run(c *xplor.Ctx, cl c12Client, tg c12Target, value string, present bool) (be *world.Backend, ex *world.Exchange, ok bool) {
+	method := "Unary"
+	if cl.form == wire.ConnectStream {
+		method = "SStream"
+		if tg.form == wire.REST {
+			return nil, nil, false // no streaming method of the schema has a plain-JSON REST binding
+		}
+	}
+	if cl.form == wire.ConnectGet || cl.form == wire.REST {
+		method = "Pure"
+	}
+	// force a real conversion: the target accepts only a codec the client does not use
+	clientCodec, tgtCodec := "json", "proto"
+	if tg.form == wire.REST || cl.form == wire.REST {
+		clientCodec, tgtCodec = "proto", "json"
+	}
+	if cl.form == wire.REST {
+		clientCodec = "json"
+		tgtCodec = "proto"
+		if tg.form == wire.REST {
+			return nil, nil, false // REST -> REST is a pass-through
+		}
+	}
+	p := Pairing{Name: cl.name + ">" + tg.name, Client: cl.form, ClientCodec: clientCodec, Method: method, Target: tg.form, TgtCodecs: []string{tgtCodec}}
+	if cl.form == wire.REST {
+		p.RESTMethod, p.RESTTarget = "GET", "/v1/pure/x?num=1"
+	}
+	// the server's own request context may carry a deadline (http.TimeoutHandler, a
+	// context.WithTimeout middleware): that is not the client's timeout
+	var cancel context.CancelFunc
+	sctx := context.Background()
+	if d := c.Free("server-context-deadline", 3); d > 0 {
+		sctx, cancel = context.WithTimeout(sctx, []time.Duration{time.Hour, 10 * time.Second}[d-1])
+		defer cancel()
+		c.Attr("~server-context-deadline", []string{"1h", "10s"}[d-1])
+	}
+	r := p.run(runOpts{Spec: func(s *drive.ReqSpec) {
+		if present {
+			s.Header[cl.header] = []string{value}
+		}
+		s.Ctx = sctx
+	}})
+	if r.Err != nil {
+		c.Fail("harness.setup", "%v", r.Err)
+		return nil, nil, false
+	}
+	return r.Backend, r.Ex, true
+}
+
+// c12CheckOne runs one request end to end and judges what the backend was handed.
+func c12CheckOne(c *xplor.Ctx, cl c12Client, tg c12Target, value string, present bool) (got string, gotPresent, dispatched bool) {
+	c.Attr("~value", value)
+	be, ex, ok := c12Run(c, cl, tg, value, present)
+	if !ok {
+		c.Skip()
+		return got, gotPresent, be != nil && be.Calls == 1
+	}
+	if be.Seen != nil {
+		vs := be.Seen.Header.Values(tg.header)
+		gotPresent = len(vs) > 0
+		if gotPresent {
+			got = vs[0]
+		}
+	}
+	desc := fmt.Sprintf("%s: %q -> %s target; backend calls=%d, backend %s=%q (present=%v), client status %d", cl.header, value, tg.name, be.Calls, tg.header, got, gotPresent, ex.Rec.Status)
+	if !present {
+		c.Outcome("absent")
+		if be.Calls != 1 {
+			c.Fail("harness.base-not-ok", "request without timeout not dispatched: %s", desc)
+			return got, gotPresent, be != nil && be.Calls == 1
+		}
+		for _, h := range []string{"Grpc-Timeout", "Connect-Timeout-Ms", "X-Server-Timeout"} {
+			if len(be.Seen.Header.Values(h)) > 0 {
+				c.Fail("C12.timeout-invented", "request without a timeout reached the backend with %s=%q", h, be.Seen.Header.Get(h))
+			}
+		}
+		return got, gotPresent, be != nil && be.Calls == 1
+	}
+	T, validity := cl.parse(value)
+	if validity == reftimeout.Malformed {
+		c.Fail("harness.alphabet", "value %q for %s is not valid under the reference grammar", value, cl.header)
+		return got, gotPresent, be != nil && be.Calls == 1
+	}
+	rejected := be.Calls == 0 && ex.Rec.Status >= 400 && ex.Rec.Status < 500
+	if rejected {
+		if validity == reftimeout.Valid {
+			c.Attr("class", "valid-rejected")
+			c.Fail("C12.valid-timeout-rejected", "syntactically valid timeout rejected: %s", desc)
+		}
+		c.Outcome("rejected")
+		return got, gotPresent, be != nil && be.Calls == 1
+	}
+	if be.Calls != 1 {
+		c.Fail("C12.valid-timeout-rejected", "request with timeout not dispatched and not cleanly rejected: %s", desc)
+		return got, gotPresent, be != nil && be.Calls == 1
+	}
+	v := c12Judge(T, tg, got, gotPresent)
+	if v.nontrivial {
+		c.Nontrivial(fmt.Sprintf("%s|%s|%s", cl.name, tg.name, value))
+	}
+	if v.clause != "" {
+		c.Attr("class", v.class)
+		c.Fail(v.clause, "%s: %s", v.detail, desc)
+		return got, gotPresent, be != nil && be.Calls == 1
+	}
+	c.Outcome(v.outcome)
+	return got, gotPresent, true
+}
+
 func init() {
 	gv, cv, rv := grpcValues(), connectValues(), restValues()
 	valuesFor := func(h string) []string {
@@ -124,54 +298,6 @@ func init() {
 			return cv
 		}
 		return rv
-	}
-	run := func(c *xplor.Ctx, cl c12Client, tg c12Target, value string, present bool) (be *world.Backend, ex *world.Exchange, ok bool) {
-		method := "Unary"
-		if cl.form == wire.ConnectStream {
-			method = "SStream"
-			if tg.form == wire.REST {
-				return nil, nil, false // no streaming method of the schema has a plain-JSON REST binding
-			}
-		}
-		if cl.form == wire.ConnectGet || cl.form == wire.REST {
-			method = "Pure"
-		}
-		// force a real conversion: the target accepts only a codec the client does not use
-		clientCodec, tgtCodec := "json", "proto"
-		if tg.form == wire.REST || cl.form == wire.REST {
-			clientCodec, tgtCodec = "proto", "json"
-		}
-		if cl.form == wire.REST {
-			clientCodec = "json"
-			tgtCodec = "proto"
-			if tg.form == wire.REST {
-				return nil, nil, false // REST -> REST is a pass-through
-			}
-		}
-		p := Pairing{Name: cl.name + ">" + tg.name, Client: cl.form, ClientCodec: clientCodec, Method: method, Target: tg.form, TgtCodecs: []string{tgtCodec}}
-		if cl.form == wire.REST {
-			p.RESTMethod, p.RESTTarget = "GET", "/v1/pure/x?num=1"
-		}
-		// the server's own request context may carry a deadline (http.TimeoutHandler, a
-		// context.WithTimeout middleware): that is not the client's timeout
-		var cancel context.CancelFunc
-		sctx := context.Background()
-		if d := c.Free("server-context-deadline", 3); d > 0 {
-			sctx, cancel = context.WithTimeout(sctx, []time.Duration{time.Hour, 10 * time.Second}[d-1])
-			defer cancel()
-			c.Attr("~server-context-deadline", []string{"1h", "10s"}[d-1])
-		}
-		r := p.run(runOpts{Spec: func(s *drive.ReqSpec) {
-			if present {
-				s.Header[cl.header] = []string{value}
-			}
-			s.Ctx = sctx
-		}})
-		if r.Err != nil {
-			c.Fail("harness.setup", "%v", r.Err)
-			return nil, nil, false
-		}
-		return r.Backend, r.Ex, true
 	}
 	valid := func(c *xplor.Ctx) {
 		cl := c12Clients[c.Free("client", len(c12Clients))]
@@ -185,104 +311,7 @@ func init() {
 		if present {
 			value = vals[vi-1]
 		}
-		c.Attr("~value", value)
-		be, ex, ok := run(c, cl, tg, value, present)
-		if !ok {
-			c.Skip()
-			return
-		}
-		got, gotPresent := "", false
-		if be.Seen != nil {
-			vs := be.Seen.Header.Values(tg.header)
-			gotPresent = len(vs) > 0
-			if gotPresent {
-				got = vs[0]
-			}
-		}
-		desc := fmt.Sprintf("%s: %q -> %s target; backend calls=%d, backend %s=%q (present=%v), client status %d", cl.header, value, tg.name, be.Calls, tg.header, got, gotPresent, ex.Rec.Status)
-		if !present {
-			c.Outcome("absent")
-			if be.Calls != 1 {
-				c.Fail("harness.base-not-ok", "request without timeout not dispatched: %s", desc)
-				return
-			}
-			for _, h := range []string{"Grpc-Timeout", "Connect-Timeout-Ms", "X-Server-Timeout"} {
-				if len(be.Seen.Header.Values(h)) > 0 {
-					c.Fail("C12.timeout-invented", "request without a timeout reached the backend with %s=%q", h, be.Seen.Header.Get(h))
-				}
-			}
-			return
-		}
-		T, validity := cl.parse(value)
-		if validity == reftimeout.Malformed {
-			c.Fail("harness.alphabet", "value %q for %s is not valid under the reference grammar", value, cl.header)
-			return
-		}
-		rejected := be.Calls == 0 && ex.Rec.Status >= 400 && ex.Rec.Status < 500
-		if rejected {
-			if validity == reftimeout.Valid {
-				c.Attr("class", "valid-rejected")
-				c.Fail("C12.valid-timeout-rejected", "syntactically valid timeout rejected: %s", desc)
-			}
-			c.Outcome("rejected")
-			return
-		}
-		if be.Calls != 1 {
-			c.Fail("C12.valid-timeout-rejected", "request with timeout not dispatched and not cleanly rejected: %s", desc)
-			return
-		}
-		if !gotPresent || got == "" {
-			// absent: acceptable only beyond the practical range (the 8 h the code names) or
-			// beyond what the target can express
-			if T.NS.Cmp(eightHours) > 0 {
-				c.Outcome("dropped-unbounded")
-				return
-			}
-			c.Attr("class", "dropped")
-			c.Fail("C12.deadline-extended", "client timeout %s ns was dropped (backend has no deadline): %s", T.NS, desc)
-			return
-		}
-		B, bv := tg.parse(got)
-		if bv == reftimeout.Malformed {
-			c.Attr("class", "malformed-output")
-			c.Fail("C12.backend-timeout-malformed", "backend header %s=%q is not valid in the target's grammar: %s", tg.header, got, desc)
-			return
-		}
-		if T.Unit.Cmp(B.Unit) != 0 || T.NS.Cmp(B.NS) != 0 {
-			c.Nontrivial(fmt.Sprintf("%s|%s|%s", cl.name, tg.name, value))
-		}
-		// B <= T (REST: decimal seconds come from a float64; allow its representation error)
-		slack := big.NewInt(0)
-		if tg.form == wire.REST {
-			slack = new(big.Int).Rsh(T.NS, 52)
-			slack.Add(slack, big.NewInt(1))
-		}
-		if B.Rat().Cmp(new(big.Rat).Add(T.Rat(), new(big.Rat).SetInt(slack))) > 0 {
-			c.Attr("class", "extended")
-			c.Fail("C12.deadline-extended", "backend deadline %s ns exceeds the client's %s ns: %s", B.NS, T.NS, desc)
-			return
-		}
-		// T - B < unit of B's encoding, unless T is beyond what the target can express (clamped)
-		diff := new(big.Rat).Sub(T.Rat(), B.Rat())
-		unit := B.Unit
-		if tg.form == wire.REST {
-			unit = new(big.Int).Add(big.NewInt(1), slack)
-		}
-		if diff.Cmp(new(big.Rat).SetInt(unit)) >= 0 {
-			clampOK := false
-			switch tg.form {
-			case wire.ConnectUnary:
-				clampOK = got == "9999999999"
-			case wire.GRPC, wire.GRPCWeb:
-				clampOK = strings.HasPrefix(got, "99999999")
-			}
-			if !clampOK && T.NS.Cmp(eightHours) <= 0 || !clampOK && B.NS.Cmp(eightHours) < 0 {
-				c.Attr("class", "shortened")
-				c.Fail("C12.deadline-shortened-beyond-rounding", "backend deadline %s ns falls short of the client's %s ns by %s ns (>= rounding unit %s ns): %s", B.NS, T.NS, diff.FloatString(3), unit, desc)
-				return
-			}
-		}
-		c.Outcome("propagated:" + tg.name)
+		c12CheckOne(c, cl, tg, value, present)
 	}
 	malformed := func(c *xplor.Ctx) {
 		cl := c12Clients[c.Free("client", len(c12Clients))]
@@ -296,7 +325,7 @@ func init() {
 			c.Skip()
 			return
 		}
-		be, ex, ok := run(c, cl, tg, value, true)
+		be, ex, ok := c12Run(c, cl, tg, value, true)
 		if !ok {
 			c.Skip()
 			return
@@ -326,7 +355,10 @@ func init() {
 		Scenarios: []Scenario{
 			{Name: "valid-values", Fn: valid, QuickBound: 0, ThoroughBound: 0},
 			{Name: "malformed-values", Fn: malformed, QuickBound: 0, ThoroughBound: 0},
+			// run by c12Custom (after the function-level answers for the samples are known)
+			{Name: "sweep-samples-end-to-end", Fn: c12SampleScenario, QuickBound: -1, ThoroughBound: -1},
 		},
+		Custom:      c12Custom,
 		MinOutcomes: 5,
 	})
 }
